@@ -8,11 +8,11 @@ RX = '$' + 'C' * 40      # NOT in the consensus
 LONG = {RA: RA + '~relaya', RB: RB + '=relayb', RX: RX + '~ghost'}
 
 C_LAUNCHED, C_EXT1, C_EXT2, C_BUILT, C_CLOSED, C_FAILED = range(6)
-S_NEW, S_SENT1, S_SENT2, S_REMAP, S_SUCC, S_DETACH, S_CLOSED, S_FAILED = range(8)
+S_NEW, S_SENT1, S_SENT2, S_REMAP, S_SUCC, S_DETACH, S_CLOSED, S_FAILED, S_REMAP0 = range(9)
 NC = 6
-NS = 8
+NS = 9
 CNAMES = ['LAUNCHED', 'EXTENDED', 'EXTENDED', 'BUILT', 'CLOSED', 'FAILED']
-SNAMES = ['NEW', 'SENTCONNECT', 'SENTCONNECT', 'REMAP', 'SUCCEEDED', 'DETACHED', 'CLOSED', 'FAILED']
+SNAMES = ['NEW', 'SENTCONNECT', 'SENTCONNECT', 'REMAP', 'SUCCEEDED', 'DETACHED', 'CLOSED', 'FAILED', 'REMAP']
 
 
 class TorModel(object):
@@ -65,7 +65,8 @@ class TorModel(object):
         cid, gen = s['on']
         alive = cid in self.circ and self.circ[cid]['gen'] == gen
         if alive:
-            return ev in (S_REMAP, S_SUCC, S_DETACH, S_CLOSED, S_FAILED)
+            # S_REMAP0: an event that reports the stream on circuit 0 (no longer on any circuit) without a DETACHED
+            return ev in (S_REMAP, S_SUCC, S_DETACH, S_CLOSED, S_FAILED, S_REMAP0)
         return ev in (S_DETACH, S_CLOSED, S_FAILED)
 
     def apply(self, e):
@@ -130,6 +131,12 @@ class TorModel(object):
             s['addr'] = ip.split(':')[0]
             s['flags'] = {'SOURCE': 'EXIT'}
             return 'STREAM', '%d REMAP %d %s SOURCE=EXIT' % (oid, cid, ip)
+        if ev == S_REMAP0:
+            s['status'] = 'REMAP'
+            s['addr'] = ip.split(':')[0]
+            s['on'] = None
+            s['flags'] = {'SOURCE': 'CACHE'}
+            return 'STREAM', '%d REMAP 0 %s SOURCE=CACHE' % (oid, ip)
         if ev == S_SUCC:
             s['status'] = 'SUCCEEDED'
             s['flags'] = {}
